@@ -457,3 +457,27 @@ def first_statement_loops():
                     prog = loop.replace("out.push(", "log(").replace("o)", "{x: 1, y: 2, z: 3})").replace(" a)", " [1, 2, 3, 4])")
                     out.append((("first-loop-program", hn, bn, 0, N), "var n, k, v, q, j, m;\n" + ("n = %d; " % N if False else "") + prog.replace("n-- > 0", "(n = (n === undefined ? %d : n) - 1) >= 0" % N, 1) + "\nlog('END');"))
     return out
+
+
+def label_programs():
+    """(name, source): one, two and three labels stacked on one statement (loop of every kind, block, switch) with break / continue
+    naming each of them, from the body and from constructs nested in it."""
+    out = []
+    loops = {"for": "for (var i = 0; i < 4; i++) { %s }", "while": "var i = -1; LABELS while (++i < 4) { %s }", "do": "var i = -1; LABELS do { i++; %s } while (i < 3);",
+             "for-in": "var i = -1; LABELS for (var k in {p: 1, q: 2, r: 3, s: 4}) { i++; %s }", "for-of": "var i = -1; LABELS for (var v of [1, 2, 3, 4]) { i++; %s }"}
+    for ln, lp in loops.items():
+        for labels in (["a"], ["a", "b"], ["a", "b", "c"]):
+            for target in labels:
+                for kind in ("continue", "break"):
+                    for nest in ("%s", "switch (i) { case 1: %s default: out.push('d' + i); }", "for (var j = 0; j < 2; j++) { %s out.push('j' + j); }", "try { %s } finally { out.push('f'); }", "{ inner: { %s } }"):
+                        jump = "if (i % 2) " + kind + " " + target + ";"
+                        body = (nest % jump) + " out.push(i);"
+                        lab = " ".join(l + ":" for l in labels)
+                        src = lp % body
+                        src = src.replace("LABELS", lab) if "LABELS" in src else lab + " " + src
+                        for wrap in ("var out = []; %s log(out.join());", "function f() { var out = []; %s return out.join(); } log(f());"):
+                            out.append((("labels", ln, "+".join(labels) + ">" + kind + " " + target, nest[:6], wrap[:3]), (wrap % src) + "\nlog('END');"))
+    # labelled blocks and nested labelled loops
+    out.append((("labels", "block", "a+b>break a", "", ""), "var out = []; a: b: { out.push(1); if (out.length) break a; out.push(2); } out.push(3); log(out.join()); log('END');"))
+    out.append((("labels", "nested", "outer+inner", "", ""), "var out = []; o1: o2: for (var i = 0; i < 3; i++) { i1: i2: for (var j = 0; j < 3; j++) { if (j === 1) continue o1; if (i === 2) break o2; out.push(i + ':' + j); } } log(out.join()); log('END');"))
+    return out
